@@ -73,6 +73,9 @@ class RateLimiter(BaseRateLimiter):
 
     def evaluate_rules(self, rules, timestamps):
         now = self._timestamp()
+        if any(freq == 0 for _, freq in rules):
+            # a rate of 0 admits nothing
+            return True
         if timestamps:
             max_interval = max(rules)[0]
             if (now - timestamps[0]) > max_interval:
